@@ -22,6 +22,7 @@ import (
 	"ergo.services/ergo/gen"
 	"ergo.services/ergo/lib"
 	"ergo.services/ergo/net/edf"
+	"ergo.services/ergo/net/handshake"
 )
 
 // ---------------------------------------------------------------------------
@@ -692,6 +693,8 @@ type edfCfg struct {
 	Atom, Reg, Err, Cache, MapE, MapD bool
 	RegHalf                          bool // only every second registered type is in the RegCache
 	ErrForeign                       bool // the decoding side knows sentinel 1 only as a text error (no local equivalent)
+	SentinelFault                    string // set when the negotiated decode cache does not hand back this process's own sentinels
+	ErrRenumber                      bool // the peer numbers its registered errors differently (another registration order); the decode cache comes from the real handshake constructor
 	NoDecCaches                      bool // hostile: ids arrive but the decoding side has no caches at all
 	Boundary                         bool // hand-assigned cache ids at the boundaries (256/257/65535, 4096/4097/65535, 32768/32769/65534)
 
@@ -735,6 +738,8 @@ func edfConfigs() []*edfCfg {
 		{Name: "atom+reg", Atom: true, Reg: true},
 		{Name: "reghalf+err+cache", Reg: true, RegHalf: true, Err: true, Cache: true},
 		{Name: "all-foreignerr", Atom: true, Reg: true, Err: true, Cache: true, ErrForeign: true},
+		{Name: "err-renumbered", Err: true, ErrRenumber: true},
+		{Name: "all-err-renumbered", Atom: true, Reg: true, Err: true, Cache: true, ErrRenumber: true},
 		{Name: "mapE", MapE: true, Cache: true},
 		{Name: "atom+mapD", Atom: true, MapD: true},
 		{Name: "boundary-ids", Atom: true, Reg: true, Err: true, Boundary: true},
@@ -908,6 +913,32 @@ func (c *edfCfg) build() {
 			// makeDecodeErrCache keeps the remote's error value when no local error has that text
 			id := c.errE[gen.ErrProcessUnknown]
 			c.errD[id] = errors.New(gen.ErrProcessUnknown.Error())
+		}
+		if c.ErrRenumber {
+			// the encoding peer registered the same errors in another order: its ids are shifted. What the decoding side
+			// makes of the announced table (id -> an error VALUE that is not this process's sentinel, only its text) is
+			// decided by the real constructor of the handshake: the local sentinel registered under the same text.
+			local := edf.GetErrCache()
+			remote := map[uint16]error{}
+			c.errE, c.errD = map[error]uint16{}, map[uint16]error{}
+			for id, er := range local {
+				rid := id + 1000
+				c.errE[er] = rid
+				remote[rid] = errors.New(er.Error())
+			}
+			if dc := handshake.VerifMakeDecodeErrCache(local, remote); dc != nil {
+				dc.Range(func(k, v any) bool {
+					c.errD[k.(uint16)] = v.(error)
+					return true
+				})
+			}
+			// the property: an error registered on both sides comes back as THIS side's sentinel, whatever id the peer uses
+			for id, er := range local {
+				if got := c.errD[id+1000]; got != er {
+					c.SentinelFault = fmt.Sprintf("the peer announces %q under id %d (this node registered it under %d): the decode cache built by the handshake maps that id to %T %p, not to the local sentinel %p", er.Error(), id+1000, id, got, got, er)
+					break
+				}
+			}
 		}
 		e, d := new(sync.Map), new(sync.Map)
 		var le, ld []string
